@@ -195,24 +195,60 @@ theorem applyTo_exact {p rp rf : Int} (hp : 0 ≤ p) (hrf : 0 ≤ rf) (hrp : 0 <
 
 /-! ### Exchange's share of market fees -/
 
+/-- The exchange's share of a fee of a valid coin is exactly `⌈amt·split/10000⌉`, between 0 and
+the fee — and the computation succeeds for EVERY amount (no 256-bit product). -/
 theorem exchangeSplit_is_ceil {amt : Int} {split : Nat} (ha : 0 < amt) (hs0 : 0 < split)
-    (hs : split ≤ 10000) (hfit : fits256 (amt * split) = true) :
+    (hs : split ≤ 10000) (hfit : fits256 amt = true) :
     ∃ x, exchangeSplitCoin amt split = .ok (some x) ∧ IsCeilDiv (amt * split) 10000 x ∧
       0 ≤ x ∧ x ≤ amt := by
-  have hprod : 0 ≤ amt * (split : Int) := Int.mul_nonneg (by omega) (Int.natCast_nonneg _)
-  have hc := quoIntRoundUp_isCeil hprod (by decide : (0 : Int) < 10000)
-  refine ⟨quoIntRoundUp (amt * split) 10000, ?_, hc, isCeilDiv_nonneg (by decide) hprod hc, ?_⟩
-  · unfold exchangeSplitCoin mul256
+  have hsl : (split : Int) ≤ 10000 := by exact_mod_cast hs
+  have hs0' : (0 : Int) < split := by exact_mod_cast hs0
+  obtain ⟨e1, e2⟩ := tdiv_tmod_nonneg (by omega : 0 ≤ amt) (by decide : (0 : Int) < 10000)
+  obtain ⟨f1, f2, f3⟩ := ediv_facts amt (by decide : (0 : Int) < 10000)
+  have hq : 0 ≤ amt / 10000 := Int.ediv_nonneg (by omega) (by decide)
+  have hb : 0 ≤ amt % 10000 * (split : Int) := Int.mul_nonneg f2 (by omega)
+  have hc := quoIntRoundUp_isCeil hb (by decide : (0 : Int) < 10000)
+  have hc0 := isCeilDiv_nonneg (by decide) hb hc
+  unfold IsCeilDiv at hc
+  have hwb : 0 ≤ amt / 10000 * (split : Int) := Int.mul_nonneg hq (by omega)
+  have h3 : amt % 10000 * (split : Int) ≤ amt % 10000 * 10000 := by nlinarith
+  have h4 : amt / 10000 * (split : Int) ≤ amt / 10000 * 10000 := by nlinarith
+  have hexp : amt * (split : Int) = 10000 * (amt / 10000 * split) + amt % 10000 * split := by
+    have : amt * (split : Int) = (10000 * (amt / 10000) + amt % 10000) * split := by rw [f1]
+    rw [this]; ring
+  have hcle : quoIntRoundUp (amt % 10000 * (split : Int)) 10000 ≤ amt % 10000 := by
+    -- 10000·(c−1) < rem·split ≤ rem·10000
+    have : 10000 * (quoIntRoundUp (amt % 10000 * (split : Int)) 10000 - 1) < amt % 10000 * 10000 := by
+      linarith [hc.1]
+    omega
+  have hfa : amt.natAbs < 2 ^ 256 := by simpa [fits256] using hfit
+  have r1 : fits256 (amt / 10000 * (split : Int)) = true := by
+    unfold fits256; simp only [decide_eq_true_eq]; omega
+  have r2 : fits256 (amt % 10000 * (split : Int)) = true := by
+    unfold fits256; simp only [decide_eq_true_eq]
+    have : amt % 10000 * (split : Int) < 100000000 := by nlinarith
+    omega
+  have r3 : fits256 (amt / 10000 * (split : Int) +
+      quoIntRoundUp (amt % 10000 * (split : Int)) 10000) = true := by
+    unfold fits256; simp only [decide_eq_true_eq]; omega
+  refine ⟨amt / 10000 * split + quoIntRoundUp (amt % 10000 * split) 10000, ?_, ?_, by omega, by omega⟩
+  · unfold exchangeSplitCoin mul256 add256
     have h1 : ¬ amt = 0 := by omega
     have h2 : ¬ split = 0 := by omega
-    simp [h1, h2, hfit, bind, Except.bind, pure, Except.pure]
-  · -- ceil(amt*split/10000) ≤ amt because split ≤ 10000
-    have hamt : IsCeilDiv (amt * 10000) 10000 amt := by
-      unfold IsCeilDiv; constructor <;> nlinarith
-    have hle : amt * (split : Int) ≤ amt * 10000 := by
-      have : (split : Int) ≤ 10000 := by exact_mod_cast hs
-      nlinarith
-    exact isCeilDiv_mono (by decide) hle hc hamt
+    simp [h1, h2, e1, e2, r1, r2, r3, bind, Except.bind, pure, Except.pure]
+  · unfold IsCeilDiv
+    rw [hexp]
+    constructor <;> nlinarith [hc.1, hc.2]
+
+/-- "No amount makes the computation fail", for the exchange split, at full strength. -/
+theorem exchangeSplit_never_fails {amt : Int} {split : Nat} (ha : 0 ≤ amt) (hs : split ≤ 10000)
+    (hfit : fits256 amt = true) : ∃ r, exchangeSplitCoin amt split = .ok r := by
+  by_cases h0 : amt = 0
+  · exact ⟨none, by simp [exchangeSplitCoin, h0, pure, Except.pure]⟩
+  · by_cases hs0 : split = 0
+    · exact ⟨none, by simp [exchangeSplitCoin, h0, hs0, pure, Except.pure]⟩
+    · obtain ⟨x, hx, _⟩ := exchangeSplit_is_ceil (by omega : 0 < amt) (by omega : 0 < split) hs hfit
+      exact ⟨some x, hx⟩
 
 theorem exchangeSplit_skips {amt : Int} {split : Nat} (h : amt = 0 ∨ split = 0) :
     exchangeSplitCoin amt split = .ok none := by
@@ -221,13 +257,21 @@ theorem exchangeSplit_skips {amt : Int} {split : Nat} (h : amt = 0 ∨ split = 0
   · simp [h, pure, Except.pure]
   · by_cases h0 : amt = 0 <;> simp [h, h0, pure, Except.pure]
 
-theorem exchangeSplit_fails_iff {amt : Int} {split : Nat} (ha : 0 < amt) (hs0 : 0 < split) :
-    (∃ e, exchangeSplitCoin amt split = .error e) ↔ fits256 (amt * split) = false := by
+/-- Before the repair (5d6beec44) the split failed (Go: panicked) exactly when `amt·split` needed
+more than 256 bits, although the result never exceeds `amt`. Witness kept in `corpus/`. -/
+theorem exchangeSplit_fails_iff_before_fix {amt : Int} {split : Nat} (ha : 0 < amt) (hs0 : 0 < split) :
+    (∃ e, exchangeSplitCoinPreFix amt split = .error e) ↔ fits256 (amt * split) = false := by
   have h1 : ¬ amt = 0 := by omega
   have h2 : ¬ split = 0 := by omega
-  unfold exchangeSplitCoin mul256
+  unfold exchangeSplitCoinPreFix mul256
   cases hf : fits256 (amt * split) <;>
     simp [h1, h2, hf, bind, Except.bind, pure, Except.pure, throw, throwThe, MonadExceptOf.throw]
+
+/-- the witness: `2^256 − 2` with 8047 bips panicked before the repair, succeeds now -/
+theorem exchangeSplit_witness_before_fix :
+    exchangeSplitCoinPreFix (2 ^ 256 - 2) 8047 = .error .overflow ∧
+    (match exchangeSplitCoin (2 ^ 256 - 2) 8047 with | .ok (some x) => decide (0 < x) | _ => false) = true := by
+  constructor <;> decide
 
 /-! ### Message-fee recipient split -/
 
